@@ -239,6 +239,41 @@ func stressTimeout(seed int64, scale int) int {
 			v.add(fmt.Sprintf("Timeout that did not fire did not return the inner result: (%d, %v)", val, err))
 		}
 	}
+	// an execution that was cancelled from outside first, whose function is still winding down when the Timeout's limit elapses: the
+	// timer's Cancel meets an already cancelled execution. Whatever error is reported (two sources: either is legitimate), the
+	// execution must end, and the listener is told at most once.
+	for i := 0; i < 6*scale; i++ {
+		var listener atomic.Int32
+		to := timeout.Builder[int](limit).OnTimeoutExceeded(func(failsafe.ExecutionDoneEvent[int]) { listener.Add(1) }).Build()
+		ctx, cancel := context.WithCancel(context.Background())
+		var outer failsafe.Policy[int] = retrypolicy.Builder[int]().WithMaxRetries(2).Build()
+		if i%2 == 1 {
+			outer = fallback.BuilderWithResult(7).HandleErrors(errX).Build()
+		}
+		done := make(chan error, 1)
+		go func() {
+			_, err := failsafe.NewExecutor[int](outer, to).WithContext(ctx).GetWithExecution(func(e failsafe.Execution[int]) (int, error) {
+				cancel()                     // the caller gives up …
+				time.Sleep(3 * limit)        // … and the function takes a while to notice: the limit elapses meanwhile
+				return 0, errX
+			})
+			done <- err
+		}()
+		runs++
+		v.count("cancelled-then-limit-elapses")
+		select {
+		case err := <-done:
+			if err == nil {
+				v.add("an execution cancelled by its caller ended without an error")
+			}
+			if listener.Load() > 1 {
+				v.add(fmt.Sprintf("timeout listener called %d times", listener.Load()))
+			}
+		case <-time.After(3 * time.Second):
+			v.add(fmt.Sprintf("the execution never ended after its caller cancelled it and its Timeout fired (listener calls %d)", listener.Load()))
+		}
+		cancel()
+	}
 	return v.report("timeout", runs)
 }
 
@@ -886,12 +921,21 @@ func stressCancel(seed int64, scale int) int {
 				case 0:
 					src, want = "ctxCancel", context.Canceled
 					ctx, cancel := context.WithCancel(context.Background())
+					if i%3 == 0 {
+						// a context cancelled with a cause of the caller's own: its Err() is still context.Canceled, which is what the
+						// execution reports (the cause is the caller's business, available through context.Cause)
+						cctx, ccancel := context.WithCancelCause(context.Background())
+						ctx, cancel = cctx, func() { ccancel(errX) }
+					}
 					go func() { time.Sleep(at); cancel(); cancelledAt.Store(time.Now().UnixNano()) }()
 					_, err = failsafe.NewExecutor[int](ps...).WithContext(ctx).GetWithExecution(fn)
 					cancel()
 				case 1:
 					src, want = "ctxDeadline", context.DeadlineExceeded
 					ctx, cancel := context.WithTimeout(context.Background(), at)
+					if i%3 == 0 {
+						ctx, cancel = context.WithTimeoutCause(context.Background(), at, errX)
+					}
 					_, err = failsafe.NewExecutor[int](ps...).WithContext(ctx).GetWithExecution(fn)
 					cancel()
 				case 2:
